@@ -127,3 +127,185 @@ Example C04_ahead_nonvacuous :
   snd (run exact None ex_ahead) = Some (SRej RejAheadAfNegative) /\
   length (fst (run exact None ex_ahead)) = 2%nat.
 Proof. vm_compute. split; reflexivity. Qed.
+
+(* ==== "Rejected exactly when impossible", for whole histories ================
+   Spec/Possible.v walks a history declaratively: it carries the affiliates'
+   holdings of Spec/AvgCost.v (shares and cost base, never the ledger's state)
+   and judges each row against the classes the property lists; for a sale at a
+   loss the superficial part is the rule of Spec/SflRule.v.  [first_offence]
+   is the index (in the input rows) and class of the first impossible
+   transaction, [possible_rows] the effective rows (input rows and generated
+   adjustments, with the denied amounts) before it, [rows_before .. i] those
+   of the first i input rows.
+
+   Hypotheses (what Tx::try_from and the application guarantee): the
+   registered flag is a function of the affiliate id ([row_ok']; the id string
+   ends with "(R)"), quantities are in range ([vtx] = valid_tx), the opening
+   position is well formed ([init_ok2]), the rows are sorted by settlement
+   date (approot.rs sorts them), and the run does not hit the effective-cent
+   panic - the only panic possible under exact arithmetic on such rows
+   (C05_exact_panics_only_at_effective_cent). *)
+From Coq Require Import Sorted Lia.
+From ACB Require Import Spec.Possible Proofs.C05NoPanic Proofs.C04Iff.
+
+(* The outcome of the ledger is determined by the declarative walk.
+   - No impossible transaction: accepted, and the emitted rows are the
+     declaratively determined effective rows.
+   - First impossible transaction at input row j, class c: rejected, by a
+     listed rejection r; EITHER r is the rejection of class c and the emitted
+     rows are exactly the effective rows before row j (the prefix ends before
+     the offending transaction), OR r is the over-sale found ahead
+     (is_ahead r): the ledger stopped at a loss sale i <= j whose 30-day
+     look-ahead met a sale k >= j, settled at most 30 days after i, that
+     over-sells its affiliate; the emitted rows are the effective rows before
+     row i; if j = k the first impossible transaction is that over-sale,
+     otherwise another impossible transaction lies between i and k; in every
+     case row j settles at most 30 days after row i. *)
+Theorem C04_rejection_matches_offence : forall (regof : N -> bool), regof default_id = false ->
+  forall init txs ds o,
+  run exact init txs = (ds, o) ->
+  init_ok2 init -> Forall (row_ok' regof) txs -> Forall vtx txs -> sd_sorted txs ->
+  o <> Some (SPanic (PanicConstraint Site.eff_cent)) ->
+  match first_offence init txs with
+  | None => o = None /\ effective ds = possible_rows init txs
+  | Some (j, c) =>
+      exists r, o = Some (SRej r) /\ listed r /\
+        ((class_of r = Some c /\ effective ds = possible_rows init txs) \/
+         (is_ahead r /\
+          exists i k ti tk,
+            nth_error txs i = Some ti /\ nth_error txs k = Some tk /\
+            (i <= j <= k)%nat /\ (i < k)%nat /\
+            is_sell (t_act ti) = true /\ is_sell (t_act tk) = true /\
+            (t_sd tk <= t_sd ti + 30)%Z /\
+            effective ds = rows_before init txs i /\
+            (j = k -> c = OverSale) /\
+            (forall tj, nth_error txs j = Some tj -> (t_sd tj <= t_sd ti + 30)%Z)))
+  end.
+Proof. exact C04Iff.rejection_matches_offence. Qed.
+Check C04_rejection_matches_offence : forall (regof : N -> bool), regof default_id = false ->
+  forall init txs ds o,
+  run exact init txs = (ds, o) ->
+  init_ok2 init -> Forall (row_ok' regof) txs -> Forall vtx txs -> sd_sorted txs ->
+  o <> Some (SPanic (PanicConstraint Site.eff_cent)) ->
+  match first_offence init txs with
+  | None => o = None /\ effective ds = possible_rows init txs
+  | Some (j, c) =>
+      exists r, o = Some (SRej r) /\ listed r /\
+        ((class_of r = Some c /\ effective ds = possible_rows init txs) \/
+         (is_ahead r /\
+          exists i k ti tk,
+            nth_error txs i = Some ti /\ nth_error txs k = Some tk /\
+            (i <= j <= k)%nat /\ (i < k)%nat /\
+            is_sell (t_act ti) = true /\ is_sell (t_act tk) = true /\
+            (t_sd tk <= t_sd ti + 30)%Z /\
+            effective ds = rows_before init txs i /\
+            (j = k -> c = OverSale) /\
+            (forall tj, nth_error txs j = Some tj -> (t_sd tj <= t_sd ti + 30)%Z)))
+  end.
+Print Assumptions C04_rejection_matches_offence.
+
+(* (a) rejected (by a listed rejection) exactly when the history contains an
+   impossible transaction *)
+Theorem C04_rejected_iff_offending : forall (regof : N -> bool), regof default_id = false ->
+  forall init txs ds o,
+  run exact init txs = (ds, o) ->
+  init_ok2 init -> Forall (row_ok' regof) txs -> Forall vtx txs -> sd_sorted txs ->
+  o <> Some (SPanic (PanicConstraint Site.eff_cent)) ->
+  ((exists r, o = Some (SRej r) /\ listed r) <-> (exists j c, first_offence init txs = Some (j, c))).
+Proof. exact C04Iff.rejected_iff_offending. Qed.
+Check C04_rejected_iff_offending : forall (regof : N -> bool), regof default_id = false ->
+  forall init txs ds o,
+  run exact init txs = (ds, o) ->
+  init_ok2 init -> Forall (row_ok' regof) txs -> Forall vtx txs -> sd_sorted txs ->
+  o <> Some (SPanic (PanicConstraint Site.eff_cent)) ->
+  ((exists r, o = Some (SRej r) /\ listed r) <-> (exists j c, first_offence init txs = Some (j, c))).
+Print Assumptions C04_rejected_iff_offending.
+
+(* (b) accepted exactly when the history is free of impossible transactions *)
+Theorem C04_accepted_iff_possible : forall (regof : N -> bool), regof default_id = false ->
+  forall init txs ds o,
+  run exact init txs = (ds, o) ->
+  init_ok2 init -> Forall (row_ok' regof) txs -> Forall vtx txs -> sd_sorted txs ->
+  o <> Some (SPanic (PanicConstraint Site.eff_cent)) ->
+  (o = None <-> first_offence init txs = None).
+Proof. exact C04Iff.accepted_iff_possible. Qed.
+Check C04_accepted_iff_possible : forall (regof : N -> bool), regof default_id = false ->
+  forall init txs ds o,
+  run exact init txs = (ds, o) ->
+  init_ok2 init -> Forall (row_ok' regof) txs -> Forall vtx txs -> sd_sorted txs ->
+  o <> Some (SPanic (PanicConstraint Site.eff_cent)) ->
+  (o = None <-> first_offence init txs = None).
+Print Assumptions C04_accepted_iff_possible.
+
+(* What "the rows before row j" are: the walk emits one group per input row
+   it passed - the input row itself (with its denied amount) followed by the
+   cost-base adjustments generated for it (non-registered affiliates, same
+   settlement date) - so [possible_rows] consists of exactly the first j input
+   rows, in order, with their adjustments, and ends before input row j. *)
+Theorem C04_possible_rows_are_input_rows : forall init txs,
+  Forall2 group_ok (firstn (length (fst (walk (spec_init init) [] txs))) txs)
+          (fst (walk (spec_init init) [] txs)).
+Proof. intros init txs. exact (C04Iff.walk_groups txs (spec_init init) []). Qed.
+Check C04_possible_rows_are_input_rows : forall init txs,
+  Forall2 group_ok (firstn (length (fst (walk (spec_init init) [] txs))) txs)
+          (fst (walk (spec_init init) [] txs)).
+Print Assumptions C04_possible_rows_are_input_rows.
+
+(* ---- non-vacuity: one accepted history, one rejected history per class, one
+   over-sale reported early; each meets the hypotheses ---- *)
+Definition regof_ex (id : N) : bool := N.eqb id 1002.
+Definition rrsp := {| af_id := 1002; af_reg := true; af_dflt := false |}.
+Definition mka af sd a :=
+  {| t_sec := 0; t_td := sd; t_sd := sd; t_act := a; t_af := af; t_glob := false; t_ri := 0 |}.
+Definition one := q 1 1.
+Definition zero := q 0 1.
+Definition hyps (h : list tx) : Prop :=
+  init_ok2 None /\ Forall (row_ok' regof_ex) h /\ Forall vtx h /\ sd_sorted h.
+Ltac hyps_tac :=
+  split; [intros i E; discriminate E|]; split; [repeat constructor|];
+  split; [repeat constructor | repeat constructor; cbn; lia].
+
+(* accepted: a superficial loss shared between two buying affiliates *)
+Definition ex_ok : list tx := [
+  mka spouse 90 (Buy (q 20 1) (q 10 1) zero one one);
+  mk 100 (Buy (q 10 1) (q 10 1) zero one one);
+  mk 110 (Sell (q 4 1) (q 5 1) zero one one None);
+  mka spouse 112 (Buy (q 3 1) (q 5 1) zero one one);
+  mk 115 (Buy (q 1 1) (q 5 1) zero one one);
+  mk 120 (Sell (q 3 1) (q 5 1) zero one one None);
+  mk 150 (Roc one one)].
+Example C04_iff_accepted_nonvacuous :
+  hyps ex_ok /\ snd (run exact None ex_ok) = None /\ first_offence None ex_ok = None /\
+  length (possible_rows None ex_ok) = 11%nat /\
+  effective (fst (run exact None ex_ok)) = possible_rows None ex_ok.
+Proof. split; [hyps_tac|]. vm_compute. repeat split. Qed.
+
+Definition ex_roc : list tx := [mk 10 (Buy (q 10 1) (q 3 1) zero one one); mk 20 (Roc (q 5 1) one)].
+Definition ex_rocreg : list tx := [mka rrsp 10 (Buy (q 10 1) (q 3 1) zero one one); mka rrsp 20 (Roc one one)].
+Definition ex_sflareg : list tx := [mka rrsp 10 (Buy (q 10 1) (q 3 1) zero one one); mka rrsp 20 (Sfla one one)].
+Definition ex_frac : list tx := [mk 10 (Buy (q 10 1) (q 3 1) zero one one); mk 20 (Split one (q 3 1) true)].
+Definition ex_noloss : list tx := [mk 10 (Buy (q 10 1) (q 3 1) zero one one);
+                                   mk 20 (Sell (q 4 1) (q 5 1) zero one one (Some (q (-1) 1, false)))].
+Definition ex_mismatch : list tx := [mk 10 (Buy (q 10 1) (q 10 1) zero one one);
+                                     mk 20 (Sell (q 4 1) (q 5 1) zero one one (Some (q (-1) 1, false)))].
+Example C04_iff_rejected_nonvacuous :
+  (hyps ex_over /\ snd (run exact None ex_over) = Some (SRej RejOversale) /\ first_offence None ex_over = Some (2%nat, OverSale)) /\
+  (hyps ex_roc /\ snd (run exact None ex_roc) = Some (SRej RejRocExceeds) /\ first_offence None ex_roc = Some (1%nat, RocExceeds)) /\
+  (hyps ex_rocreg /\ snd (run exact None ex_rocreg) = Some (SRej RejRocRegistered) /\ first_offence None ex_rocreg = Some (1%nat, RocRegistered)) /\
+  (hyps ex_sflareg /\ snd (run exact None ex_sflareg) = Some (SRej RejSflaRegistered) /\ first_offence None ex_sflareg = Some (1%nat, SflaRegistered)) /\
+  (hyps ex_frac /\ snd (run exact None ex_frac) = Some (SRej RejRevSplitFraction) /\ first_offence None ex_frac = Some (1%nat, RevSplitFraction)) /\
+  (hyps ex_noloss /\ snd (run exact None ex_noloss) = Some (SRej RejSflNoLoss) /\ first_offence None ex_noloss = Some (1%nat, SflNoLoss)) /\
+  (hyps ex_mismatch /\ snd (run exact None ex_mismatch) = Some (SRej RejSflMismatch) /\ first_offence None ex_mismatch = Some (1%nat, SflMismatch)).
+Proof.
+  repeat match goal with |- _ /\ _ => split end;
+    try hyps_tac; vm_compute; reflexivity.
+Qed.
+
+(* the over-sale reported early: the ledger stops at the loss sale (input row
+   2, look-ahead rejection), the first impossible transaction is the over-sale
+   at input row 4, ten days of settlement later; two rows are emitted *)
+Example C04_iff_early_report_nonvacuous :
+  hyps ex_ahead /\ snd (run exact None ex_ahead) = Some (SRej RejAheadAfNegative) /\
+  first_offence None ex_ahead = Some (4%nat, OverSale) /\
+  effective (fst (run exact None ex_ahead)) = rows_before None ex_ahead 2.
+Proof. split; [hyps_tac|]. vm_compute. repeat split. Qed.
